@@ -49,6 +49,7 @@ type Plan struct {
 	RevBig       int     `json:"rev_big,omitempty"`        // one reverse call whose argument, and therefore the client's response, has this many bytes
 	RevStream    int     `json:"rev_stream,omitempty"`     // the handler subscribes to a stream of this many elements served by the calling client
 	RevStreamPad int     `json:"rev_stream_pad,omitempty"` // padding of every (odd) element of that stream
+	RevSticky    int     `json:"rev_sticky,omitempty"`     // the handler subscribes to a client-served stream of this many elements whose producer ignores its context
 	Bare         bool    `json:"bare,omitempty"`           // subscribe through the method whose only result is the channel (no error result)
 	ChanCap      int     `json:"chan_cap,omitempty"`       // capacity of the channel the handler returns (at least Early)
 	Flood        bool    `json:"flood,omitempty"`          // the producer never pauses: it keeps the returned channel's buffer full until the context ends (N is ignored)
@@ -267,6 +268,8 @@ type RevClient struct {
 	SlowRetry  func(ctx context.Context, tok string) (string, error) `retry:"true" rpc_method:"Rev.Slow"`
 	// Stream is served by the client: a reverse-direction subscription
 	Stream func(ctx context.Context, tok string, n int, pad int) (<-chan Item, error)
+	// Sticky is a client-served stream whose producer is slow to notice that its context ended (see RevHandler.Sticky)
+	Sticky func(ctx context.Context, tok string, n int) (<-chan Item, error)
 	// Other lives on a second client-side handler, registered under its own namespace
 	Other func(ctx context.Context, tok string) (string, error) `rpc_method:"Rev2.Other"`
 }
@@ -334,6 +337,13 @@ func (a *TokAPI) body(ctx context.Context, tok string, plan Plan) (Result, error
 	if plan.RevStream > 0 {
 		if rc, ok := jsonrpc.ExtractReverseClient[RevClient](ctx); ok {
 			revs = append(revs, consumeRevStream(ctx, rc, tok, plan.RevStream, plan.RevStreamPad))
+		} else {
+			revs = append(revs, "!absent")
+		}
+	}
+	if plan.RevSticky > 0 {
+		if rc, ok := jsonrpc.ExtractReverseClient[RevClient](ctx); ok {
+			revs = append(revs, consumeRevSticky(ctx, a.W, rc, tok, plan.RevSticky))
 		} else {
 			revs = append(revs, "!absent")
 		}
@@ -777,6 +787,65 @@ func (h *RevHandler) Stream(ctx context.Context, tok string, n int, pad int) (<-
 		}
 	}()
 	return ch, nil
+}
+
+// Sticky serves a reverse-direction subscription whose producer does not look at its context: it sends element 0, waits
+// until the harness releases the gate "revstream:<tok>" (at most 8 s) and then sends the rest and closes, whether or not
+// the connection it was subscribed on still exists.
+func (h *RevHandler) Sticky(ctx context.Context, tok string, n int) (<-chan Item, error) {
+	ch := make(chan Item)
+	h.W.mu.Lock()
+	gate := h.W.st("revstream:" + tok).gate
+	h.W.mu.Unlock()
+	go func() {
+		defer close(ch)
+		select {
+		case ch <- Item{Tok: tok, Seq: 0}:
+		case <-time.After(8 * time.Second):
+			return
+		}
+		select {
+		case <-gate:
+		case <-time.After(8 * time.Second):
+		}
+		for i := 1; i < n; i++ {
+			select {
+			case ch <- Item{Tok: tok, Seq: i}:
+			case <-time.After(2 * time.Second):
+				return
+			}
+		}
+	}()
+	return ch, nil
+}
+
+// consumeRevSticky reads a Sticky stream to its close; the first element is noted in the world as "sticky-first".
+func consumeRevSticky(ctx context.Context, w *World, rc RevClient, tok string, n int) string {
+	ch, err := rc.Sticky(ctx, tok, n)
+	if err != nil {
+		return "!stream-err:" + err.Error()
+	}
+	next := 0
+	for {
+		select {
+		case v, ok := <-ch:
+			if !ok {
+				if next != n {
+					return fmt.Sprintf("!stream-closed-after-%d-of-%d", next, n)
+				}
+				return fmt.Sprintf("stream-ok:%d", n)
+			}
+			if v.Tok != tok || v.Seq != next {
+				return fmt.Sprintf("!stream-got-%s/%d-expected-%s/%d", v.Tok, v.Seq, tok, next)
+			}
+			if next == 0 {
+				w.Note(tok, "sticky-first")
+			}
+			next++
+		case <-time.After(12 * time.Second):
+			return fmt.Sprintf("!stream-stalled-after-%d-of-%d", next, n)
+		}
+	}
 }
 
 // RevHandler2 is a second, independent client-side handler (namespace Rev2).
